@@ -728,6 +728,61 @@ def capture_faults(ctx):
                     shutil.rmtree(d, ignore_errors=True)
 
 
+def files_whose_size_is_not_their_content(ctx):
+    """Files whose stat size under-reports what reading them yields (kernel-generated files: /proc/version, /proc/sys/kernel/ostype -
+    st_size 0, content not empty): what an output file handler captures is the bytes the file yields when read, as for any file."""
+    from playback.tape_recorder import TapeRecorder
+    from playback.interception.files.output_file_interception import OutputInterceptionFileDataHandler
+    paths = []
+    for cand in ('/proc/version', '/proc/sys/kernel/ostype', '/proc/sys/kernel/osrelease', '/proc/filesystems'):
+        try:
+            with open(cand, 'rb') as f:
+                a = f.read()
+            with open(cand, 'rb') as f:
+                b = f.read()
+            if a and a == b and os.stat(cand).st_size < len(a):
+                paths.append((cand, a))
+        except (IOError, OSError):
+            pass
+    if not paths:
+        ctx.count('no_file_with_an_under_reported_size_on_this_host')
+        return
+    for kind in ('memory', 'file', 's3'):
+        for path, content in paths:
+            for how in ('positional', 'keyword'):
+                with open_box(kind) as box:
+                    spy = SpyCassette(box.cassette)
+                    rec = TapeRecorder(spy)
+                    rec.enable_recording()
+                    out_handler = OutputInterceptionFileDataHandler(0, 'file_path', intercepted_size_limit=1)
+
+                    class Svc(object):
+                        @rec.intercept_output('files.publish', data_handler=out_handler)
+                        def publish(self, file_path):
+                            return 'published'
+
+                        @rec.operation()
+                        def run(self, pth):
+                            return self.publish(pth) if how == 'positional' else self.publish(file_path=pth)
+                    Svc().run(path)
+                    w = {'kind': 'size_is_not_content', 'cassette': kind, 'path': path, 'passed': how}
+                    ctx.case(w)
+                    ctx.count('files_with_an_under_reported_size_published')
+                    saves = [e for e in spy.log if e[0] == 'save' and not (e[4] or {}).get(TapeRecorder.INCOMPLETE_RECORDING)]
+                    if not saves:
+                        ctx.count('under_reported_size_runs_not_saved')
+                        continue
+                    rec.tape_cassette = box.reader()
+                    pb = rec.play(saves[0][2], lambda recording: Svc().run(path))
+                    for side, outs in (('recorded', pb.recorded_outputs), ('replayed', pb.playback_outputs)):
+                        ent = [o for o in outs if 'files.publish' in o.key]
+                        got = out_handler.restore_output_from_recording(ent[0].value).file_content if len(ent) == 1 else None
+                        ctx.count('input_files_compared')
+                        if got != content:
+                            ctx.violation('the %s output of a file whose stat size is smaller than its content holds %s instead of the %d bytes the file yields' % (
+                                side, 'nothing' if got is None else '%d bytes' % len(got), len(content)), w)
+
+
 def optimised_interpreter(ctx):
     """The same trips with the interpreter's optimisation switched on (python -O: assert statements are compiled away), as services started
     with PYTHONOPTIMIZE are: a handful of trips in a child interpreter, its violations are reported here."""
@@ -861,6 +916,7 @@ def run(ctx):
         trip_threads(ctx, ctx.quick)
         holder_threads(ctx, ctx.quick)
         capture_faults(ctx)
+        files_whose_size_is_not_their_content(ctx)
         optimised_interpreter(ctx)
     for i in range(n):
         case = dict(shapes(rng), seed=base + 10000 + i)
@@ -886,6 +942,8 @@ def replay(ctx, w):
         return trip_rounds(ctx, case)
     if case.get('kind') == 'capture_faults':
         return capture_faults(ctx)
+    if case.get('kind') == 'size_is_not_content':
+        return files_whose_size_is_not_their_content(ctx)
     if case.get('kind') == 'optimised_interpreter':
         return optimised_interpreter(ctx)
     if case.get('kind') == 'holder_threads':
